@@ -158,6 +158,21 @@ def lxmlTree (e : Env) (isDt : Str → Bool) (indent : Option Str) (evs : List E
     | none => .ok t
     | some i => .ok (lxmlIndent e i t)
 
+mutual
+/-- "indentation aside" on trees: whitespace-only text of elements with children and
+whitespace-only tails of child elements are dropped -/
+def stripLayout (e : Env) : Tree → Tree
+  | .node q a ns t kids tl =>
+    match kids with
+    | [] => .node q a ns t [] tl
+    | _ :: _ => .node q a ns (if wsOnly e t then none else t) (stripLayoutKids e kids) tl
+def stripLayoutKids (e : Env) : List Tree → List Tree
+  | [] => []
+  | k :: ks =>
+    let k' := stripLayout e k
+    (if wsOnly e (treeTail k') then treeSetTail k' none else k') :: stripLayoutKids e ks
+end
+
 /-! ### comparing streams up to layout -/
 
 /-- a reader's normal form of a call stream: adjacent character runs are one run;
